@@ -209,7 +209,7 @@ func init() {
 										if scale > 0 && (rb == 1 || k%3 != 0 || adapter) {
 											continue // large frames: every third stream, not with 1-byte reads
 										}
-										if adapter && (ch != "whole" || api == "wsjson" && rb != 512) {
+										if adapter && (ch != "whole" || api == "wsjson" && rb != 512 || api == "netconn" && rb != 1 && rb != 7 && rb != 512) {
 											continue
 										}
 										for _, fb := range finBodies(api) {
